@@ -18,10 +18,17 @@ def gen_mixed(rng, size):
     outs = []
     nxt = 4
     for _ in range(rng.choice([1, 2, 2])):
-        if rng.random() < 0.5:
+        r = rng.random()
+        if r < 0.4:
             ents.append(dict(kind='sink', cycle=0, collect=True, up=[3]))
             outs.append(nxt)
             nxt += 1
+        elif r < 0.65:
+            # a batcher directly behind the buffer: it unpacks an accepted batch during the hand-over
+            ents.append(dict(kind='batcher', batch_size=rng.choice([None, None, 2, 3]), up=[3]))
+            ents.append(dict(kind='sink', cycle=0, collect=rng.random() < 0.5, up=[nxt]))
+            outs.append(nxt)
+            nxt += 2
         else:
             ents.append(dict(kind=rng.choice(['handler', 'processor']), cycle=rng.choice([0, 4, 8]), up=[3]))
             ents.append(dict(kind='sink', cycle=0, collect=rng.random() < 0.5, up=[nxt]))
@@ -178,7 +185,8 @@ def gen(rng, size='small', focus=None):
                         other = 1 - e['req'][0][0]
                         e['req'].append([other, 8])
                 if rng.random() < 0.3:
-                    e['on_finish'] = [rng.choice([['part_add_value', 8 * rng.choice([1, 3])], ['part_set_quality', rng.choice([0, 4, 8, 16])], ['log', 1]])]
+                    e['on_finish'] = [rng.choice([['part_add_value', 8 * rng.choice([1, 3])], ['part_set_quality', rng.choice([0, 4, 8, 16])], ['log', 1],
+                                                  ['offset_next', rng.choice([-8, -4, 4, 8, 12])]])]
                     if use_batches:
                         e['on_finish'] = [['log', 1]]
                 if maints and rng.random() < 0.5:
